@@ -20,7 +20,8 @@ from vlib import exc_tag
 ID = 'C16'
 LEVEL = 'proof'
 CLUSTER = 'F'
-GEN_UNITS = ['Effects']
+GEN_UNITS = ['Effects', 'fx_write_zone', 'fx_read_zone_io', 'fx_lrmsd_fast_zone', 'fx_irmsd_fast_zone', 'fx_izone_rowid', 'fx_lzone_save',
+             'fx_izone_save', 'fx_pairs_save', 'fx_lrmsd_sql_export', 'fx_irmsd_sql_export', 'fx_exportpdb', 'fx_close']
 PIN_TARGETS = ['PdbVerif.Pins.F']
 RULE = ('every routine of the property (six score routines, clashes, contacts, superpose, align, reference pairs, '
         'l-zone, i-zone) x zone argument (none | named file absent -> written | present -> read | garbage) x check '
@@ -525,8 +526,17 @@ def _materialise(ctx, c, wd, seeded):
             dec = dec[:-1]                                 # decoy misses the last residue
         if c.get('fail') == 'chains':
             dec = [('X' if ch == dec[0][0] else ch, rs, rn, at) for ch, rs, rn, at in dec]      # first chain renamed
+        ref_text = pdb_text(ref)
+        if c.get('fail') == 'onechain':
+            # fxTie: a reference with ONE chain -- compute_lzone / compute_izone raise ValueError (not exactly two chains) after the
+            # reference is read and before anything is written
+            ref_text = pdb_text([x for x in ref if x[0] == ref[0][0]])
+        elif c.get('fail') == 'garbage_ref':
+            # fxTie: a reference that is not a PDB file (no ATOM record: no chain at all), or whose coordinates do not parse
+            ref_text = 'this is not a structure\nREMARK nothing here\n' if c['inputs_seed'] % 2 == 0 else \
+                ''.join(l[:30] + '  x.yz  ' + l[38:] + '\n' for l in ref_text.split('\n') if l.startswith('ATOM'))
         open(os.path.join(wd, c['names'][0]), 'w').write(pdb_text(dec))
-        open(os.path.join(wd, c['names'][1]), 'w').write(pdb_text(ref))
+        open(os.path.join(wd, c['names'][1]), 'w').write(ref_text)
     paths = {'decoy': c['names'][0], 'ref': c['names'][1]}
     lay = c.get('layout', 'rel')
     if lay == 'subdir':                                    # inputs and zone file in sub-directories
@@ -640,7 +650,11 @@ def impl(ctx, c):
 
 
 def driver_line(c):
-    return {k: v for k, v in c.items() if k in ('op', 'check', 'zone', 'exports', 'missing', 'failstage', 'intersect', 'trace')}
+    line = {k: v for k, v in c.items() if k in ('op', 'check', 'zone', 'exports', 'missing', 'failstage', 'intersect', 'trace')}
+    if c.get('fail') in ('onechain', 'garbage_ref'):
+        # fxTie: the zone computation fails on this reference -> the hand model with `Work.computeErr` set (Driver/ExtFx.lean)
+        line['op'] = 'effects_zonefail_' + c['op'][len('effects_'):]
+    return line
 
 
 def _allowed_writes(c):
@@ -796,6 +810,14 @@ def cases(ctx):
         for r in ('lzone', 'izone'):
             for z in ('none', 'absent', 'present'):
                 add(r, zone=z)
+        # fxTie: the failing-zone path -- a reference with one chain / a reference that is not a structure, zone file not named or
+        # named but absent: ValueError after the reference is read, no zone file, no temp file (model: Work.computeErr)
+        for fl in ('onechain', 'garbage_ref'):
+            for r in ('lrmsd_fast', 'irmsd_fast'):
+                for z in ('none', 'absent'):
+                    add(r, check=rng.random() < 0.5, zone=z, fail=fl, layout=rng.choice(['rel', 'rel', 'subdir', 'abs']))
+            for r in ('lzone', 'izone'):
+                add(r, zone=rng.choice(['none', 'absent']), fail=fl)
         # --- blind-spot families: object reuse, zone given as Path, absolute / sub-directory names, the warn-only
         # residue-mismatch branch, the quaternion method
         score = ['lrmsd_fast', 'irmsd_fast', 'lrmsd_sql', 'irmsd_sql', 'fnat_fast', 'fnat_sql']
@@ -1177,6 +1199,298 @@ def _pairs(ctx):
     return out
 
 
+
+# ===== fxTie: translated effect programs (Gen/Fx.lean) vs the real calls ============================================
+class _FxStop(Exception):
+    pass
+
+
+def fx_tie_checks(ctx):
+    """implementation = generated: `_write_zone`, the file part of `read_zone`, the zone-file branches of the fast routines,
+    `get_izone_rowID`, the save branches, the pickle branch and the export branches are run for real with every file call
+    recorded (audit hook, wrappers; callee methods replaced by recording markers), and the TRANSLATED programs (GenF.*, driver op
+    fx_run) are run in a world with the same files: same calls, same arguments, same order, same text left in the files."""
+    SS, _, _, _ = _import_lib()
+    import pdb2sql.pdb2sql_base as base_mod
+    rng = ctx.rng
+    install()
+    recs, lines = [], []
+    root = os.path.join(ctx.tmpdir(), 'c16fx')
+    os.makedirs(root, exist_ok=True)
+
+    def rel(p, wd):
+        p = os.fsdecode(p) if isinstance(p, bytes) else str(p)
+        return os.path.relpath(p, wd) if os.path.isabs(p) else os.path.normpath(p)
+
+    def canon(events, wd):
+        """real events -> the alphabet of the driver (consecutive write/flush/close notes of one file = one 'append')"""
+        out, mk, last = [], set(), None
+        for ev in events:
+            k = ev[0]
+            if k == 'write':
+                if last != ev[1]:
+                    out.append(['append', rel(ev[1], wd)])
+                last = ev[1]
+                continue
+            if k == 'open' and (isinstance(ev[1], int) or (ev[2] is None and os.path.normpath(os.path.join(wd, str(ev[1]))) in mk)):
+                continue
+            last = None
+            if k == 'isfile':
+                out.append(['isfile', rel(ev[1], wd)])
+            elif k == 'exists':
+                out.append(['exists', rel(ev[1], wd)])
+            elif k == 'marker':
+                out.append(['exists', ev[1]])
+            elif k == 'tempfile.mkstemp':
+                mk.add(os.path.normpath(os.path.join(wd, str(ev[1]))))
+                out.append(['mkstemp', rel(ev[1], wd)])
+            elif k == 'open':
+                mode = ev[2]
+                out.append(['open', rel(ev[1], wd), mode if mode in ('w', 'a', 'wb') else 'r'])
+            elif k == 'os.rename':
+                out.append(['replace', rel(ev[1], wd), rel(ev[2], wd)])
+            elif k in ('os.remove', 'os.unlink'):
+                out.append(['remove', rel(ev[1], wd)])
+            elif k == 'sqlite3.connect':
+                out.append(['connect', str(ev[1])])
+            elif k == 'closemark':
+                out.append(['close', ev[1]])
+            else:
+                out.append(['foreign:' + k, str(ev[1])[:60]])
+        return out
+
+    def lean_canon(evs, wd):
+        npth = lambda x: rel(x, wd)        # noqa: E731
+        out, last = [], None
+        for e in evs:
+            k = e[0]
+            if k in ('write', 'fclose'):
+                if last != e[1]:
+                    out.append(['append', npth(e[1])])
+                last = e[1]
+                continue
+            last = None
+            if k in ('isfile',):
+                out.append(['isfile', npth(e[1])])
+            elif k == 'exists':
+                out.append(['exists', e[1]])
+            elif k == 'mkstemp':
+                out.append(['mkstemp', npth(e[4])])
+            elif k == 'open':
+                out.append(['open', npth(e[1]), e[2].replace('b', '')])        # the audit event reports the mode without 'b'
+            elif k == 'readlines':
+                out.append(['open', npth(e[1]), 'r'])
+            elif k == 'replace':
+                out.append(['replace', npth(e[1]), npth(e[2])])
+            elif k == 'remove':
+                out.append(['remove', npth(e[1])])
+            elif k in ('connect', 'close', 'cursor', 'commit'):
+                out.append([k, e[1]])
+            else:
+                out.append(list(e))
+        return out
+
+    def snapshot_text(wd):
+        out = {}
+        for d, _, fs in os.walk(wd):
+            for f in fs:
+                pth = os.path.join(d, f)
+                out[os.path.relpath(pth, wd)] = open(pth, 'rb').read().decode('latin-1')
+        return out
+
+    def run_real(wd, call):
+        cwd0 = os.getcwd()
+        os.chdir(wd)
+        try:
+            import io, contextlib
+            with warnings.catch_warnings(), contextlib.redirect_stdout(io.StringIO()):
+                warnings.simplefilter('ignore')
+                val, ev = traced(call)
+        finally:
+            os.chdir(cwd0)
+        return val, ev
+
+    def newdir():
+        wd = os.path.join(root, 'd%d' % next(_COUNTER))
+        os.makedirs(os.path.join(wd, 'sub'))
+        return wd
+
+    def add(name, line, wd, val, ev, check_files=None, post=None):
+        recs.append({'name': name, 'line': line, 'wd': wd, 'real': canon(ev, wd), 'outcome': 'ok' if val[0] == 'ok' or isinstance(val[1], _FxStop) else exc_tag(val[1]),
+                     'files': check_files, 'post': post, 'raw': [str(e)[:120] for e in ev][:12]})
+        lines.append(line)
+
+    zones = [[], [['A', 5]], [['A', 1], ['A', 2], ['B', -3], ['B', 0]], [['X', 1234], ['X', -999]]]
+    # ---- _write_zone -------------------------------------------------------------------------------------------
+    for fname in ('x.izone', 'sub/ref.lzone', './y.zone', 'noext', 'sub//z.izone'):
+        for data in zones:
+            wd = newdir()
+            if rng.random() < 0.4:
+                open(os.path.join(wd, os.path.normpath(fname)), 'w').write('zone Q1-Q1\n')        # an older zone file is replaced
+            val, ev = run_real(wd, lambda: SS._write_zone(fname, [tuple(x) for x in data]))
+            tmp = next((e[1] for e in ev if e[0] == 'os.rename'), None)
+            mk = next((e[1] for e in ev if e[0] == 'tempfile.mkstemp'), None)
+            line = {'op': 'fx_run', 'fn': 'write_zone', 'filename': fname, 'data': data, 'tmpname': tmp or 'TMP', 'files': []}
+            add('_write_zone', line, wd, val, ev, check_files={os.path.normpath(fname): snapshot_text(wd).get(os.path.normpath(fname))},
+                post={'mkstemp_arg': mk, 'returned': tmp})
+    # ---- file part of read_zone; get_izone_rowID -------------------------------------------------------------------
+    for present in (True, False):
+        for fname in ('x.izone', 'sub/ref.lzone'):
+            wd = newdir()
+            if present:
+                open(os.path.join(wd, fname), 'w').write('zone A5-A5\nzone B-3-B-3\n')
+            files = [[fname, ['zone A5-A5\n', 'zone B-3-B-3\n']]] if present else []
+            val, ev = run_real(wd, lambda: SS.read_zone(fname))
+            add('read_zone', {'op': 'fx_run', 'fn': 'read_zone_io', 'filename': fname, 'files': files}, wd, val, ev)
+            sim = SS.__new__(SS)
+
+            def rz_mark(z):
+                _note(('marker', 'read_zone(%s)' % z))
+                raise _FxStop()
+            sim.read_zone = rz_mark
+            val, ev = run_real(wd, lambda: sim.get_izone_rowID(None, fname))
+            add('get_izone_rowID', {'op': 'fx_run', 'fn': 'izone_rowid', 'zone': fname, 'files': files}, wd, val, ev)
+    # ---- zone branches of the fast routines --------------------------------------------------------------------------
+    for which, fn in (('lrmsd_zone', 'compute_lrmsd_fast'), ('irmsd_zone', 'compute_irmsd_fast')):
+        for zone, present in ((None, False), ('z.zone', False), ('z.zone', True), ('sub/q.izone', False), ('sub/q.izone', True)):
+            wd = newdir()
+            if present:
+                open(os.path.join(wd, zone), 'w').write('zone A5-A5\n')
+            sim = SS.__new__(SS)
+            sim.enforce_residue_matching = False
+            tag = 'compute_lzone' if which == 'lrmsd_zone' else 'compute_izone'
+
+            def comp(*a, save_file=True, filename=None, _tag=tag):
+                _note(('marker', '%s(save_file=%s,filename=%s)' % (_tag, save_file, filename)))
+                raise _FxStop()
+
+            def rz_mark(z):
+                _note(('marker', 'read_zone(%s)' % z))
+                raise _FxStop()
+            setattr(sim, tag, comp)
+            sim.read_zone = rz_mark
+            kw = {('lzone' if which == 'lrmsd_zone' else 'izone'): zone}
+            val, ev = run_real(wd, lambda: getattr(sim, fn)(**kw))
+            line = {'op': 'fx_run', 'fn': which, 'files': [[zone, ['zone A5-A5\n']]] if present else []}
+            if zone is not None:
+                line['zone'] = zone
+            add(fn + ' zone branch', line, wd, val, ev)
+    # ---- save branches of compute_lzone / compute_izone, pickle branch ---------------------------------------------------
+    ref = make_complex(random.Random(5), 5, 4)
+    for which, meth, suffix in (('lzone_save', 'compute_lzone', '.lzone'), ('izone_save', 'compute_izone', '.izone')):
+        for save, filename, refname in ((True, 'out.zone', 'r.pdb'), (True, None, 'r.v2.pdb'), (False, 'out.zone', 'r.pdb'), (True, 'sub/o.z', 'sub/r.pdb'), (True, None, 'noext')):
+            wd = newdir()
+            open(os.path.join(wd, refname), 'w').write(pdb_text(ref))
+            sim = SS(refname, refname)
+            got = {}
+
+            def wz(fn_, data, _got=got):
+                _got['filename'], _got['data'] = fn_, [list(x) for x in data]
+                _note(('marker', '_write_zone'))
+            sim._write_zone = wz
+            val, ev = run_real(wd, lambda: getattr(sim, meth)(save_file=save, filename=filename))
+            line = {'op': 'fx_run', 'fn': which, 'ref': refname, 'save_file': save, 'data': got.get('data', []), 'tmpname': 'TMP', 'files': []}
+            if filename is not None:
+                line['filename'] = filename
+            recs.append({'name': meth + ' save branch', 'line': line, 'wd': wd, 'real': None, 'outcome': 'ok' if val[0] == 'ok' else exc_tag(val[1]),
+                         'files': None, 'post': {'write_zone_target': got.get('filename')}, 'raw': []})
+            lines.append(line)
+    for save, filename, refname in ((True, 'p.pckl', 'r.pdb'), (True, None, 'r.v2.pdb'), (False, None, 'r.pdb'), (True, 'sub/p.bin', 'sub/r.pdb')):
+        wd = newdir()
+        open(os.path.join(wd, refname), 'w').write(pdb_text(ref))
+        sim = SS(refname, refname)
+        before = set(snapshot_text(wd))
+        val, ev = run_real(wd, lambda: sim.compute_residue_pairs_ref(save_file=save, filename=filename))
+        # only the events of the save branch: those after the last `connect` of the interface object
+        k = max([i for i, e in enumerate(ev) if e[0] == 'sqlite3.connect'] + [-1])
+        ev2 = [e for e in ev[k + 1:] if not (e[0] in ('exists', 'isfile') or (e[0] == 'open' and e[2] in ('r', None)))]
+        line = {'op': 'fx_run', 'fn': 'pairs_save', 'ref': refname, 'save_file': save, 'files': []}
+        if filename is not None:
+            line['filename'] = filename
+        add('compute_residue_pairs_ref save branch', line, wd, val, ev2, post={'created': sorted(set(snapshot_text(wd)) - before)})
+    # ---- export branches of the _pdb2sql routes: exportpdb / _close of the two objects replaced by recording markers ----
+    dec = perturb(random.Random(6), ref)
+    for which, meth in (('lrmsd_export', 'compute_lrmsd_pdb2sql'), ('irmsd_export', 'compute_irmsd_pdb2sql')):
+        for exportpath in (None, 'exp', 'sub/e'):
+            wd = newdir()
+            open(os.path.join(wd, 'd.pdb'), 'w').write(pdb_text(dec))
+            open(os.path.join(wd, 'r.pdb'), 'w').write(pdb_text(ref))
+            if exportpath:
+                os.makedirs(os.path.join(wd, exportpath), exist_ok=True)
+            sim = SS('d.pdb', 'r.pdb', enforce_residue_matching=False)
+            o_exp, o_close = base_mod.pdb2sql_base.exportpdb, base_mod.pdb2sql_base._close
+            seen_kw = {}
+
+            def who(obj):
+                return 'sql_decoy' if obj.pdbfile == 'd.pdb' else 'sql_ref'
+
+            def m_exp(self, fname, append=False, tablename='atom', **kwargs):
+                f = open(fname, 'a' if append else 'w')
+                f.write('%s.exportpdb(tablename=%s%s)' % (who(self), tablename, ''.join(',%s=%s' % (k_, 'index_contact_' + who(self)[4:]) for k_ in kwargs)))
+                f.close()
+
+            def m_close(self, rmdb=True):
+                if getattr(_tls, 'rec', None) is not None and getattr(self, '_fx_main', True):
+                    _note(('closemark', '%s._close(rmdb=%s)' % (who(self), rmdb)))
+                return o_close(self, rmdb)
+            base_mod.pdb2sql_base.exportpdb, base_mod.pdb2sql_base._close = m_exp, m_close
+            try:
+                val, ev = run_real(wd, lambda: getattr(sim, meth)(exportpath=exportpath))
+            finally:
+                base_mod.pdb2sql_base.exportpdb, base_mod.pdb2sql_base._close = o_exp, o_close
+            # the export branch and what follows it: everything after the last read of an input
+            k = max([i for i, e in enumerate(ev) if e[0] in ('sqlite3.connect', 'exists', 'isfile') or (e[0] == 'open' and e[2] in ('r', None))] + [-1])
+            ev2 = ev[k + 1:]
+            # check_residues closes its own two objects before the branch: keep the LAST two close marks only
+            closes = [i for i, e in enumerate(ev2) if e[0] == 'closemark']
+            ev2 = [e for i, e in enumerate(ev2) if e[0] != 'closemark' or i in closes[-2:]]
+            line = {'op': 'fx_run', 'fn': which, 'files': []}
+            if exportpath:
+                line['exportpath'] = exportpath
+            files = {os.path.join(exportpath, f): t for f, t in ()} if exportpath else None
+            add(meth + ' export branch', line, wd, val, ev2, check_files={k_: v for k_, v in snapshot_text(wd).items() if exportpath and k_.startswith(exportpath)} if exportpath else None)
+    # ---- compare -----------------------------------------------------------------------------------------------------
+    answers = vlib.run_driver(lines, which='model', cluster=CLUSTER)
+    bad = None
+    for r, a in zip(recs, answers):
+        m = a.get('model') or {}
+        why = None
+        lean_files = {os.path.normpath(f[0]): f[1] for f in m.get('files', [])}
+        if a.get('driver_error'):
+            why = 'driver error ' + str(a)[:300]
+        elif r['real'] is not None and lean_canon(m.get('events', []), r['wd']) != r['real']:
+            why = 'calls differ: real %s translated %s (raw %s)' % (r['real'], lean_canon(m.get('events', []), r['wd']), r['raw'])
+        elif (m.get('outcome') == 'ok') != (r['outcome'] == 'ok'):
+            why = 'outcome: real %s translated %s' % (r['outcome'], m.get('outcome'))
+        elif r['files'] is not None and any(lean_files.get(k) != v for k, v in r['files'].items()):
+            why = 'text left in the file: real %r translated %r' % (r['files'], lean_files)
+        elif r['post'] and 'mkstemp_arg' in r['post']:
+            e = next((e for e in m.get('events', []) if e[0] == 'mkstemp'), None)
+            arg = r['post']['mkstemp_arg']
+            if e is None or arg is None:
+                why = 'no mkstemp'
+            else:
+                d_, pre, suf = e[1], e[2], e[3]
+                b = os.path.basename(arg)
+                if os.path.normpath(os.path.dirname(arg)) != os.path.normpath(os.path.join(r['wd'], d_)):
+                    why = 'mkstemp directory: real %r translated dir=%r' % (arg, d_)
+                elif not (b.startswith(pre) and b.endswith(suf) and len(b) > len(pre) + len(suf)):
+                    why = 'mkstemp name: real %r translated prefix=%r suffix=%r' % (arg, pre, suf)
+        elif r['post'] and 'write_zone_target' in r['post']:
+            e = next((e for e in m.get('events', []) if e[0] == 'replace'), None)
+            tgt = r['post']['write_zone_target']
+            if (e[2] if e else None) != tgt:
+                why = '_write_zone target: real %r translated %r' % (tgt, e[2] if e else None)
+        elif r['post'] and 'created' in r['post']:
+            if sorted(os.path.normpath(f) for f in lean_files) != sorted(r['post']['created']):
+                why = 'files created: real %r translated %r' % (r['post']['created'], sorted(lean_files))
+        if why and bad is None:
+            bad = {'what': r['name'], 'line': r['line'], 'why': why}
+    shutil.rmtree(root, ignore_errors=True)
+    return [{'name': 'translated _write_zone / read_zone / zone branches / save, pickle and export branches (GenF) make the calls of the real code, same arguments, same order, same text (%d runs)' % len(recs),
+             'ok': bad is None, 'case': bad, 'detail': 'implementation and generated effect program disagree', 'replay_kind': 'input', 'kind': None}]
+# ===== end fxTie ===================================================================================================
+
 def extra_checks(ctx):
     res = []
     root = os.path.join(ctx.tmpdir(), 'explore')
@@ -1216,6 +1530,7 @@ def extra_checks(ctx):
                 'detail': 'Sys.run under the observed schedule predicts different observations than the real tasks made', 'replay_kind': 'schedule',
                 'kind': None})
     _EXPLORE_STATS.update({'schedules': rep['schedules'], 'pairs': len(rep['pairs']), 'replayed_in_model': len(lines)})
+    res += fx_tie_checks(ctx)                       # fxTie
     return res
 
 
